@@ -257,3 +257,16 @@ def rel(t, a, b):
     if sat(a, r) and sat(b, l):
         return _REL_FLIP[op]
     return None
+
+
+def rel_x(fn, node, a, b, depth=1):
+    """like rel(), after replacing operands that are plain locals by their (unique) reaching definition"""
+    t = node.ast
+    if not (isinstance(t, ast.Compare) and len(t.ops) == 1):
+        return None
+    r = rel(t, a, b)
+    if r is not None:
+        return r
+    l = expand(fn, node.id, t.left, depth=depth) if isinstance(t.left, ast.Name) else t.left
+    c = expand(fn, node.id, t.comparators[0], depth=depth) if isinstance(t.comparators[0], ast.Name) else t.comparators[0]
+    return rel(ast.Compare(left=l, ops=t.ops, comparators=[c]), a, b)
